@@ -24,6 +24,8 @@ func checkC09(c *Ctx) {
 	r095(c)
 	r096(c, "R09.6 probing-continues")
 	r097(c)
+	// the deploy routine disposes only what left service (shared with C02)
+	r021(c, "R09.8 deploy-disposes-only-what-left-service")
 }
 
 func r092(c *Ctx) {
